@@ -57,6 +57,17 @@ func suiteCalls(c *ctx) {
 		so := schemaOpts{maxTables: 1 + c.rng.Intn(3), maxCols: 1 + c.rng.Intn(5), indexes: true, fks: dialect == "mysql" && c.rng.Intn(2) == 0}
 		old := g.schema(so)
 		nw := g.mutate(old, mutateOpts{schemaOpts: so, edits: 1 + c.rng.Intn(5), retype: true, reopt: true, redefineIndex: true, dropTables: true}, c)
+		if dialect == "mysql" && c.rng.Intn(3) == 0 {
+			// states from the script space: histories with renames, modifies, drops, positional adds
+			o := scriptOpts{steps: 2 + c.rng.Intn(10), positional: true, drops: true, modifies: true, renames: true, keys: true, fks: true, dropTables: true, renameIndex: true, using: true}
+			ns := g.randomScript(o, c)
+			os := ns[:c.rng.Intn(len(ns)+1)]
+			if c.rng.Intn(2) == 0 {
+				os = g.randomScript(o, c)
+			}
+			c.count("states_from_scripts")
+			return cfg, os, ns, c.rng.Intn(3) != 0
+		}
 		return cfg, old.scriptGrouped(), nw.scriptGrouped(), c.rng.Intn(3) != 0
 	}
 	build := func(cfg runCfg, oldS, newS []Stmt, diffed bool, pre []string) *sqlize.Sqlize {
